@@ -6,6 +6,7 @@ import Driver.Flow
 import Driver.C14
 import Driver.C05Mon
 import Driver.C08
+import Driver.C10Mon
 open Kv
 
 structure DState where
@@ -25,6 +26,7 @@ def dispatch (st : DState) (prop : String) (l : Line) : DState × String :=
   | "C14" => (st, Drv.C14.step l)
   | "C05" => (st, Drv.C05.step l)
   | "C08" => let (s, r) := Drv.C08.step st.c08 l; ({ st with c08 := s }, r)
+  | "C10" => (st, Drv.C10.step l)
   | _ => (st, "bad-op")
 
 def main : IO Unit := driverMain dispatch {}
